@@ -137,7 +137,9 @@ CHECKS.update({
                 'len(data) - consumed); total contracts over ARBITRARY octets for every decoder mean no input is outside the analysis.',
         'design_ref': 'DESIGN.md 4 C08, 6',
         'note': COMMON_NOTE + 'Decided: termination, per-iteration progress, closed exception sets. NOT decided by contracts: wall-clock '
-                'bounds and resident memory (I6); they are argued from the step structure only. Field-table / array decoder loops: C03 cone.',
+                'bounds and resident memory (I6); they are only MEASURED (bounded, never counted as proved) by bounded.decode_budget: trace '
+                'events inside pamqp <= 60*len+3000 and tracemalloc peak <= 64*len+64KiB on valid frames and on frames whose embedded '
+                'length fields are rewritten to huge values. Field-table / array decoder loops: C03 cone.',
     },
 })
 CHECKS.update({
